@@ -10,6 +10,7 @@ CONSTANTS
   K = 14
   TailLen = 99
   Biased = TRUE
+  Focus = FALSE
   GenFaults <- F2
 INVARIANT SimPrint
 CHECK_DEADLOCK FALSE
